@@ -1,6 +1,7 @@
 """Property -> units / harnesses / stated assumptions.  Units are /verif/units/<name>.vrs."""
 
 UNIT_NOTES = {
+    "handlers": "C19/C05/C15/C16 indexer-facing handlers without await (brc20_deposit, withdraw, deploy, call, transact, finalise_block) and load_brc20_mint_tx / load_brc20_burn_tx on their real bodies; engine entry points are sites whose preconditions compare what is handed on with what was supplied",
     "rawblock": "C06 RawBlock::new: the receipts closure and the transactions closure lifted (N10-lift, lift_wrap) and proved field by field against the stored TxReceiptED / TxED; alloy consensus types as plain records with alloy's public field names",
     "txstore": "C06/C05/C08 finalise_block's closure (N10-lift): what is stored for the block and in which order; tail of add_tx_to_block's closure (N10-lift): values handed to set_tx_receipt (cumulative gas, first log index, hash, index, nonce, gas limit) and the advance of LastBlockInfo (waiting count, gas, log index); the EVM run before it is dropped (its output and trace are parameters)",
     "rawtx": "C08 what a signed raw transaction turns into: TxInfo::{from_inscription, from_raw_transaction, from_saved_transaction, to_address_optional} and get_info_from_raw_tx on their real bodies (alloy RLP decoding, signature recovery and keccak as uninterpreted functions of their inputs)",
@@ -87,10 +88,10 @@ PROPS["C20"] = {
 }
 
 PROPS["C15"] = {
-    "units": ["payload"],
+    "units": ["payload", "handlers"],
     "kani": [],
-    "level_text": "Proof on the real decoder, for every input string: no panic (no precondition on the request-controlled argument), the result never exceeds CALLDATA_LIMIT, and it is exactly the payload the published format describes (strip from the first '=', base64 no-pad, first byte selects raw/nada/zstd); select_bytes accepts exactly one of the two fields and feeds the decoded bytes on; lemma: the base64 field carrying the published encoding of the bytes of the hex field yields the same bytes.",
-    "level_note": "Assumed dependency contracts (external crates): base64 decode/encode inverse and '='-free alphabet, nada decode_with_limit bounded and inverse of encode, zstd decompress bounded by the buffer and inverse of compress, frame header consistent with content, alloy Bytes::from_hex a function of the text. Not covered: the encoder Base64Bytes::from_bytes body (chooses the shortest of three encodings through the same crates), handlers passing the bytes on unchanged.",
+    "level_text": "Proof on the real decoder, for every input string: no panic (no precondition on the request-controlled argument), the result never exceeds CALLDATA_LIMIT, and it is exactly the payload the published format describes (strip from the first '=', base64 no-pad, first byte selects raw/nada/zstd); select_bytes accepts exactly one of the two fields and feeds the decoded bytes on; lemma: the base64 field carrying the published encoding of the bytes of the hex field yields the same bytes; the handlers brc20_deploy / brc20_call / brc20_transact (unit handlers) hand the engine exactly the bytes select_bytes returned (empty if the selected field decodes to nothing), whichever field they came from.",
+    "level_note": "Assumed dependency contracts (external crates): base64 decode/encode inverse and '='-free alphabet, nada decode_with_limit bounded and inverse of encode, zstd decompress bounded by the buffer and inverse of compress, frame header consistent with content, alloy Bytes::from_hex a function of the text. ",
     "assumptions": [
         "base64 / nada / zstd-safe / hex crates behave as inverse pairs with the stated bounds (assumed, listed in the unit)",
     ],
@@ -122,9 +123,9 @@ PROPS["C04"] = {
     "assumptions": ["each put/delete is atomic and durable in program order (DB shim)", "multi-table recovery is argued in DESIGN.md, not checked"],
 }
 PROPS["C05"] = {
-    "units": ["engine", "dbfacade", "payload", "txstore"],
+    "units": ["engine", "dbfacade", "payload", "txstore", "handlers"],
     "kani": [],
-    "level_text": "Proof of the rejection kernel: validate_next_tx (closure inlined) accepts iff tx_idx equals the number of transactions in the block, timestamp/hash equal those of the block under construction, and the block does not exist; commit_to_db / reorg / mine_blocks / finalise_block / add_tx_to_block reach their store mutation sites only behind those guards (site preconditions, rule N10); set_block_hash / set_tx_receipt: an existing hash or height gives Err and *final == *old; select_bytes accepts exactly one of the two encodings; the count of transactions waiting to be finalised advances by exactly one per stored transaction (tail of add_tx_to_block's closure, unit txstore), which is what validate_next_tx and finalise_block compare the supplied index / count with.",
+    "level_text": "Proof of the rejection kernel: validate_next_tx (closure inlined) accepts iff tx_idx equals the number of transactions in the block, timestamp/hash equal those of the block under construction, and the block does not exist; commit_to_db / reorg / mine_blocks / finalise_block / add_tx_to_block reach their store mutation sites only behind those guards (site preconditions, rule N10); set_block_hash / set_tx_receipt: an existing hash or height gives Err and *final == *old; select_bytes accepts exactly one of the two encodings, and the handlers brc20_deploy / call / transact refuse a request before the engine is reached when it fails (both fields, none) or when the pkscript is not hex; the count of transactions waiting to be finalised advances by exactly one per stored transaction (tail of add_tx_to_block's closure, unit txstore), which is what validate_next_tx and finalise_block compare the supplied index / count with.",
     "level_note": COMMON_TRUST + "SharedData is modelled sequentially; closure bodies handed to write_fn (EVM run, receipt bookkeeping) are replaced by guarded sites, so `leaves the instance exactly as it was` is NOT proved for errors raised after partial execution inside those closures (revm). Handlers in rpc_server.rs are async and outside the kernel.",
     "assumptions": ["closure bodies passed to SharedData::write_fn are outside the proof (N10)", "sequential model of SharedData"],
 }
@@ -149,12 +150,12 @@ PROPS["C09"] = {
     "level_note": COMMON_TRUST + "State-dependent ranges (heights, nonces < 2^63; from <= to in get_logs) are explicit preconditions. NOT covered: EVM execution (revm; assumed to keep owning the database it was given and not to panic), async handlers, ABI decoding (sol! macro), bitcoin / bip322 crates, decoders fed from the database.",
     "assumptions": ["heights/nonces < 2^63", "external crates (revm, alloy sol types, bitcoin, bip322) outside the kernel"],
 }
-PROPS["C16"]["units"] = ["scalars", "engine"]
+PROPS["C16"]["units"] = ["scalars", "engine", "handlers"]
 PROPS["C16"]["level_text"] = PROPS["C16"]["level_text"] + " In add_tx_to_block the value handed to the EVM site and to the receipt is get_gas_limit(inscription_byte_len) (site precondition); a parked transaction replayed by the drain of add_raw_tx_to_block is given an inscription length whose allowance is at most the allowance recorded when it was parked (site precondition gas_limit_spec(byte_len) <= stored gas)."
 PROPS["C19"] = {
-    "units": ["evmctx", "scalars", "dbfacade", "engine", "dbslot"],
+    "units": ["evmctx", "scalars", "dbfacade", "engine", "dbslot", "handlers"],
     "kani": [],
-    "level_text": "Proof on the real get_evm body over shim structs carrying revm's public field names: block number, timestamp, prevrandao = supplied hash, basefee 0, difficulty 0, chain id (cfg and tx) = configured, gas price 0, value 0, spec = fork schedule of the height, Bitcoin txid handed to the precompile provider = the supplied one; fork schedule table proved in unit scalars; the execution site of add_tx_to_block's closure (lifted, unit dbslot): the EVM the transaction runs in was built by get_evm for exactly the block number, block hash, timestamp and Bitcoin txid supplied with THIS call, and the transaction environment carries the deriving sender as caller, the supplied target and data, and the nonce and gas limit computed for it; BLOCKHASH: the revm Database::block_hash callback on its real body answers with the recorded hash of that block (committed or not), zero if there is none, and changes nothing; the Bitcoin txid of a PARKED transaction: set_pending_tx records the supplied txid under the transaction's hash, stamped like the pool entry itself (stamped(..) on both tables, whatever was recorded under that hash before), get_pending_tx_op_return_tx_id reads the current row of that table, and the drain of add_raw_tx_to_block hands what it read for the parked transaction's hash to the execution site.",
+    "level_text": "Proof on the real get_evm body over shim structs carrying revm's public field names: block number, timestamp, prevrandao = supplied hash, basefee 0, difficulty 0, chain id (cfg and tx) = configured, gas price 0, value 0, spec = fork schedule of the height, Bitcoin txid handed to the precompile provider = the supplied one; fork schedule table proved in unit scalars; the execution site of add_tx_to_block's closure (lifted, unit dbslot): the EVM the transaction runs in was built by get_evm for exactly the block number, block hash, timestamp and Bitcoin txid supplied with THIS call, and the transaction environment carries the deriving sender as caller, the supplied target and data, and the nonce and gas limit computed for it; the indexer-facing handlers brc20_deposit / withdraw / deploy / call / transact / finalise_block on their real bodies (unit handlers; `async fn` -> `fn`, they contain no await): each hands the engine the NEXT block height and exactly the timestamp, index, block hash, inscription length and Bitcoin txid it was given; deposits and withdrawals run as the indexer address against the BRC20 controller with a zero txid (load_brc20_mint_tx / load_brc20_burn_tx on their real bodies), deploys and calls as the address derived from the supplied pkscript; BLOCKHASH: the revm Database::block_hash callback on its real body answers with the recorded hash of that block (committed or not), zero if there is none, and changes nothing; the Bitcoin txid of a PARKED transaction: set_pending_tx records the supplied txid under the transaction's hash, stamped like the pool entry itself (stamped(..) on both tables, whatever was recorded under that hash before), get_pending_tx_op_return_tx_id reads the current row of that table, and the drain of add_raw_tx_to_block hands what it read for the parked transaction's hash to the execution site.",
     "level_note": "Narrow. Rule N32 replaces the generic revm type expressions of the signature and of one `let` by the shim names; field assignments are verbatim. Assumed: Context::new defaults, Evm::new_with_inspector keeps ctx and precompiles, BRC20Precompiles::new stores the txid. NOT covered: that revm reports tx.caller as both CALLER and ORIGIN, the environment of read-only calls (read_contract*), the 256-block window of BLOCKHASH (enforced by revm), deposits/withdrawals running as the indexer address.",
     "assumptions": ["revm constructors keep what they are given (shim contracts)", "N32: generic revm types replaced by shim structs with the same field names"],
 }
